@@ -66,6 +66,11 @@ def r04_1(ctx):
     ctx.fn(f)
     cls = ash_cls(ctx)
     px = PX(repo, inline=inline_ash(stop=("_write_frame",)))
+    # second explorer: the upper layer's data_received may raise while the accepted frame is handed up; the frame
+    # has been handed up all the same, so the answer must still be the ACK and the expected number must advance
+    # (a NAK / unchanged number makes the NCP retransmit and the payload is handed up twice)
+    px_up = PX(repo, inline=inline_ash(stop=("_write_frame",)),
+               models=[("self._ezsp_protocol.data_received", Outcomes(OK(None), RAISE("Exception")))])
     visited = ctx.run.shared.setdefault("rx_seq_visited", set())
     for frm in range(8):
         for rx in range(8):
@@ -76,6 +81,9 @@ def r04_1(ctx):
                                                 ezsp_frame=Sym("payload"))})
 
                 paths = px.explore(f, setup)
+                if frm == rx:
+                    paths = paths + [q for q in px_up.explore(f, setup)
+                                     if any(upward(e) and str(e.extra).startswith("raises") for e in q.events)]
                 ctx.paths += len(paths)
                 key = f"frm={frm},expected={rx},reTx={re_tx}"
                 exp_rx = (rx + 1) % 8 if frm == rx else rx
@@ -85,7 +93,10 @@ def r04_1(ctx):
                     deliver = [e for e in ups if e.what.endswith(".data_received")]
                     other = [e for e in ups if not e.what.endswith(".data_received")]
                     writes = [e for e in p.events if e.kind == "call" and e.what.endswith("_write_frame")]
-                    if p.terminal != "return":
+                    up_raised = any(str(e.extra).startswith("raises") for e in deliver)
+                    if up_raised:
+                        key = f"frm={frm},expected={rx},reTx={re_tx},upper-layer-raises"
+                    if p.terminal != "return" and not (up_raised and p.terminal == "raise" and getattr(p.value, "cls_name", "") == "Exception"):
                         bad = f"raises {p.value!r}"
                     elif other:
                         bad = f"unexpected upward call {other[0].what}"
@@ -270,7 +281,7 @@ def explore_send(ctx, tx_seq=5, outcomes=ACK_OUTCOMES, states=("CONNECTED", "FAI
     f = repo.func(SEND)
     cls = ash_cls(ctx)
     ns = repo.cls(ASH, "NcpState").members()
-    px = PX(repo, models=[("await:*", outcomes)],
+    px = PX(repo, models=[("await:*", outcomes)], fork_loop_bound=const(ctx, ASH, "ACK_TIMEOUTS", int) + 2,
             inline=inline_ash(stop=("_write_frame", "_cancel_pending_data_frames", "_change_ack_timeout")))
 
     def setup():
@@ -298,7 +309,7 @@ def ncp_state_at(p, epoch):
     return None
 
 
-@rule("R05.1", ["C05", "C01"], "T-FUN", floor=100)
+@rule("R05.1", ["C05", "C01", "C10", "C11"], "T-FUN", floor=100)
 def r05_send_skeleton(ctx):
     """One send, all paths over per-attempt outcomes {acked, NAK, NcpFailure, timeout, cancellation} and the
     failed-state flag at every gate: at most ACK_TIMEOUTS DATA writes (R05.1); every write carries the one frame
@@ -406,6 +417,15 @@ def r05_send_skeleton(ctx):
                           construct=bad.split(" ")[0])
         else:
             ctx.ok(1, pid)
+    # paths abandoned by the explorer's loop bound: an attempt loop that is still writing DATA frames after the budget
+    # is a violation in its own right (the loop is not bounded by ACK_TIMEOUTS)
+    for p in px.truncated_paths:
+        n_w = len(send_writes(p))
+        if n_w > N:
+            ctx.violation("_send_data_frame:R05.1", f"R05.1 the attempt loop is still writing after {n_w} DATA writes "
+                          f"(budget {N}); outcomes so far: {[str(e.extra) for e in send_awaits(p)][:12]}", func=f,
+                          trace=p.trace(60), construct="R05.1")
+            break
     # timeout argument is the adaptive timeout
     for p in paths[:50]:
         for e in p.events:
